@@ -38,6 +38,11 @@ func (f *Frame) call(st *State, r *Term, site ssa.Instruction, cc *ssa.CallCommo
 			callee, bindings = cv.Fn, cv.Bindings
 		} else {
 			f.check("safe", "nil-func-call:"+describe(cc.Value), r, Neq(v, IntLit(0)), pos)
+			if ftKey, nt := functypeKey(f.subst(cc.Value.Type())); nt != nil {
+				if ct := f.ctx.eng.contracts.Funcs[ftKey]; ct != nil {
+					return f.functypeCall(st, r, ct, nt, args, pos)
+				}
+			}
 			if _, isParam := cc.Value.(*ssa.Parameter); isParam && f.contract != nil && f.contract.PureCallbacks {
 				f.ctx.trusted["precondition of "+f.ctx.fnKey+": the callback does not write memory that existed before the call, terminates and does not panic"] = true
 				na := f.ctx.fresh("alloc", SInt)
@@ -78,11 +83,10 @@ func (f *Frame) callFn(st *State, r *Term, callee *ssa.Function, bindings []Val,
 			}
 		}
 	}
-	key := funcKey(target)
 	if model, ok := externModels[fullName(target)]; ok {
 		return model(f, st, r, target, args, pos)
 	}
-	ct := eng.contracts.Funcs[key]
+	ct := eng.contractFor(target)
 	if ct != nil && !ct.Inline && !(f.depth == 0 && false) {
 		return f.contractCall(st, r, target, tmap, ct, bindings, args, pos)
 	}
@@ -194,7 +198,7 @@ func (e *Engine) inModule(fn *ssa.Function) bool {
 
 func (f *Frame) inlineCall(st *State, r *Term, target *ssa.Function, tmap TMap, bindings []Val, args []Val) Val {
 	sub := &Frame{ctx: f.ctx, fn: target, tmap: tmap, vals: map[ssa.Value]Val{}, depth: f.depth + 1, parent: f,
-		contract: f.ctx.eng.contracts.Funcs[funcKey(target)], entry: f.entry, checkFrame: f.checkFrame, curKey: map[*ssa.Range]*Term{}}
+		contract: f.ctx.eng.contractFor(target), entry: f.entry, checkFrame: f.checkFrame, curKey: map[*ssa.Range]*Term{}}
 	sub.inl = f.inl
 	if sub.inl != "" {
 		sub.inl += "/"
@@ -258,11 +262,20 @@ func shortKey(k string) string {
 
 // havocCall models a call to code without contract: unknown results, heap effects per analysis.
 func (f *Frame) havocCall(st *State, r *Term, target *ssa.Function, sig *types.Signature, args []Val, why string) Val {
+	f.havocClosureCells(st, args)
 	top := true
 	var comps map[string]Sort
 	if target != nil {
 		eff := f.ctx.eng.effectsOf(target, f)
 		top, comps = eff.top, eff.comps
+		// the callee is verified separately under the standing preconditions: a pointer receiver is non-nil
+		if recv := target.Signature.Recv(); recv != nil && f.ctx.eng.inModule(target) && len(args) > 0 {
+			if _, isPtr := recv.Type().Underlying().(*types.Pointer); isPtr {
+				if rt, ok := args[0].(*Term); ok {
+					f.check("safe", "nil-receiver:"+shortKey(funcKey(target)), r, Neq(rt, IntLit(0)), token.NoPos)
+				}
+			}
+		}
 		f.ctx.trusted["no contract: "+funcKey(target)+" (havoc: results unconstrained, effects by analysis; assumed to terminate and not to panic)"] = true
 	} else {
 		f.ctx.trusted[why+" (havoc: everything reachable may change; assumed to terminate and not to panic)"] = true
